@@ -310,15 +310,16 @@ def run(ctx: Ctx, repo: Repo, tier: str) -> None:
     ctx.trust("inspect.Parameter.replace / Signature.replace return a copy with the given fields replaced",
               "inspect.Parameter.empty is inspect.Signature.empty",
               "argparse store_const semantics; mutually exclusive groups reject both flags together")
-    rule_args(ctx, repo)
-    rule_return(ctx, repo)
-    rule_optional(ctx, repo)
-    rule_flags(ctx, repo)
-    rule_forwarding(ctx, repo)
+    ctx.attempt(rule_args, ctx, repo)
+    ctx.attempt(rule_return, ctx, repo)
+    ctx.attempt(rule_optional, ctx, repo)
+    ctx.attempt(rule_flags, ctx, repo)
+    ctx.attempt(rule_forwarding, ctx, repo)
     # the traced types reach the signature update for every parameter of the signature (C10's rule on the same function)
     from . import c10 as _c10
-    _c10.rule_params_ignored(ctx, repo)
+    ctx.attempt(_c10.rule_params_ignored, ctx, repo)
     # nothing re-works the signature after update_signature_args / update_signature_return decided, per strategy, what each
     # position shows (a later rewrite of the finished annotation would alter a kept source annotation)
     from . import c01 as _c01
-    _c01.rule_updated_definition(ctx, repo, "R-C13.5")
+    ctx.attempt(_c01.rule_updated_definition, ctx, repo, "R-C13.5")
+    ctx.settle()
